@@ -855,7 +855,13 @@ def check(tier_name: str, seed: int, max_runs: int | None = None) -> int:
         "samples": sample_runs,
         "exhaustive": False,
         "runs": agg["runs"], "runs_planned": len(runs), "targets": len(targets), "targets_by_kind": dict(collections.Counter(t["kind"] for t in targets)),
-        "ref_hash_seeds": tier["ref_seeds"], "reference_results": ref_evals, "seed_dependent_targets": len(seed_dep),
+        "reference_environments": [{"PYTHONHASHSEED": h, "pre_import_heap_skew": REF_PRE_SKEW[i % len(REF_PRE_SKEW)]}
+                                   for i, h in enumerate(tier["ref_seeds"])],
+        "run_environments": {"hash_seeds_distinct": len({r["env"]["hashseed"] for r in runs}),
+                             "pre_import_heap_skews": dict(collections.Counter(str(r["env"].get("pre_skew")) for r in runs)),
+                             "gc_knobs": dict(collections.Counter(r["env"]["gc"] for r in runs))},
+        "fault_aim": dict(collections.Counter(op["fault"].get("aim", "?") for r in runs for op in r["ops"] if op.get("fault"))),
+        "reference_results": ref_evals, "seed_dependent_targets": len(seed_dep),
         "ops_executed": agg["ops"], "ops_checked_vs_reference": agg["checked"], "failing_targets_checked": agg["checked_failing_target"],
         "faults": {"callee_exception": {"configured": agg["fault_configured"], "fired": agg["fault_fired"],
                                         "propagated": agg["fault_propagated"], "swallowed": agg["fault_swallowed"]}},
